@@ -5,7 +5,7 @@ use crate::rt::{guard, Ctx};
 use crate::schemes::{below, range};
 use ark_bls12_381::{Bls12_381 as E, Fr};
 use ark_ec::CurveGroup;
-use ark_ff::{One, UniformRand, Zero};
+use ark_ff::{Field, One, UniformRand, Zero};
 use ark_poly_commit::streaming_kzg::{CommitterKeyStream, EvaluationProof, FoldedPolynomialStream, FoldedPolynomialTree, VerifierKey};
 use ark_std::iterable::{Iterable, Reverse};
 use rand_chacha::ChaCha20Rng;
@@ -86,10 +86,49 @@ fn time_space(ctx: &mut Ctx, rng: &mut ChaCha20Rng) {
             pts.push(x);
         }
     }
+    // structured point sets: the vanishing polynomial then has zero coefficients between its ends
+    // ({a,-a}: x^2 - a^2; {a,b,-(a+b)}: no x^2 term; {a,b,-ab/(a+b)}: no x term; a coset of the n-th roots of unity: x^n - a^n)
+    let mut structure = "random";
+    if npts >= 2 && rng.next_u32() % 3 == 0 {
+        let (a, b) = (Fr::rand(rng), Fr::rand(rng));
+        let cand: Vec<Fr> = match rng.next_u32() % 4 {
+            0 => {
+                structure = "opposite-pair";
+                vec![a, -a]
+            }
+            1 if npts >= 3 => {
+                structure = "three-summing-to-zero";
+                vec![a, b, -(a + b)]
+            }
+            2 if npts >= 3 && !(a + b).is_zero() => {
+                structure = "three-with-zero-pair-sum";
+                vec![a, b, -(a * b) * (a + b).inverse().unwrap()]
+            }
+            _ => {
+                structure = "coset-of-roots-of-unity";
+                let n = if npts.is_power_of_two() { npts } else { npts.next_power_of_two() / 2 };
+                let omega = <Fr as ark_ff::FftField>::get_root_of_unity(n as u64).unwrap();
+                let mut v = vec![a];
+                for i in 1..n {
+                    let nx = v[i - 1] * omega;
+                    v.push(nx);
+                }
+                v
+            }
+        };
+        let distinct = cand.iter().enumerate().all(|(i, x)| !cand[..i].contains(x));
+        if distinct && cand.len() <= npts {
+            pts = cand;
+        } else {
+            structure = "random";
+        }
+    }
+    let npts = pts.len();
     if poly.len() < npts {
         return ctx.skipped("multi-point-time-equals-space", "polynomial shorter than the number of points");
     }
-    let mdesc = json!({"max_degree": w.max_degree, "len": poly.len(), "npoints": npts, "msm_buffer": buf});
+    ctx.count(&format!("point-set:{}", structure), 1);
+    let mdesc = json!({"max_degree": w.max_degree, "len": poly.len(), "npoints": npts, "msm_buffer": buf, "point_set": structure});
     let res = guard(|| {
         let sck = CommitterKeyStream::from(&w.ck);
         let st = Reverse(poly.as_slice());
@@ -273,4 +312,10 @@ pub fn run(ctx: &mut Ctx) {
     let cells = if ctx.is_thorough() { 1040 * 6 } else { 1040 };
     ctx.run_cases("folding-iterators", cells, |ctx, i, rng| folding_iterators(ctx, i, rng));
     ctx.run_cases("folding-commit-open", n, |ctx, _i, rng| folding_commit_open(ctx, rng));
+    // polynomials with more than a thousand coefficients
+    crate::schemes::set_large(true);
+    let nl = if ctx.is_thorough() { 10 } else { 4 };
+    ctx.run_cases("time-vs-space/large", nl, |ctx, _i, rng| time_space(ctx, rng));
+    ctx.run_cases("folding-commit-open/large", nl, |ctx, _i, rng| folding_commit_open(ctx, rng));
+    crate::schemes::set_large(false);
 }
